@@ -67,9 +67,9 @@ def select(ds, quick, seed):
     by = collections.defaultdict(list)
     for c in ds:
         by[c["cls"]].append(c)
-    cap = {"truncate": 100, "brokenUtf8": 40, "illegalChar": 35, "loneSurrogate": 30, "fffe": 30, "nul": 20, "numberLiteral": 70, "cdataBracket": 60,
-           "numberFormat": 30, "numberValue": 30, "dropTag": 25, "dupTag": 25, "swapTag": 25, "unclosedQuote": 20, "unknownXslAttribute": 15,
-           "nonExpression": 80}
+    cap = {"truncate": 70, "brokenUtf8": 36, "illegalChar": 30, "loneSurrogate": 24, "fffe": 24, "nul": 16, "numberLiteral": 56, "cdataBracket": 44,
+           "numberFormat": 24, "numberValue": 24, "dropTag": 20, "dupTag": 20, "swapTag": 20, "unclosedQuote": 16, "unknownXslAttribute": 12,
+           "nonExpression": 70}
     out = []
     for cls in sorted(by):
         lst = by[cls]
@@ -116,19 +116,21 @@ def build_inputs(ds, quick, seed, stats):
             if "\x00" in text or any(ord(ch) < 0x20 or 0xD800 <= ord(ch) < 0xE000 or ord(ch) in (0xFFFE, 0xFFFF) for ch in text):
                 continue       # would no longer be a well-formed stylesheet: another class
             items.append({"cls": c["cls"], "role": "xsl", "d": c["d"], "in": add(c03gen.in_stylesheet(text)), "nodeset": False, "desc": c, "embedded": True})
-    nf = 250 if quick else 6000
+    nf = 200 if quick else 6000
     for k, (role, b) in enumerate(c03gen.fuzz_inputs(seed, nf)):
         items.append({"cls": "fuzz", "role": role, "d": 0, "in": add(b), "nodeset": True, "desc": {"cls": "fuzz", "k": k, "seed": seed}})
     return inputs, items, fixed
 
 
-QUICK_DEEPEST = {("deepDocument", "elements"), ("deepParens", "parens"), ("deepSteps", "child"), ("deepTemplateBody", "lre"), ("deepPredicates", "chained")}
+# depth 100000: a document / template body of that depth costs minutes of CPU under ASan (quadratic), a path of 100000 steps too
+QUICK_DEEPEST = {("deepParens", "parens"), ("deepParens", "calls"), ("deepPredicates", "nested")}
+THOROUGH_DEEPEST_DOCS = {("deepDocument", "elements"), ("deepTemplateBody", "lre")}
 BATCH = 25
 
 
 def plan(items, quick, seed):
     """one execution per (item, scenario).  thorough: every scenario of the role; quick: the first items of every class go through
-    every scenario, the others through three scenarios chosen round-robin (so that all scenarios are used equally); depth 100000
+    every scenario, the others through two scenarios chosen round-robin (so that all scenarios are used equally); depth 100000
     only for one variant per class and depth >= 10000 through two scenarios each."""
     cases, seen_cls = [], collections.Counter()
     rr = collections.Counter()
@@ -139,19 +141,24 @@ def plan(items, quick, seed):
         if it.get("embedded"):
             scen = [("T", "stream"), ("T", "prebuilt"), ("T", "capiData")]
         big = it["d"] >= 10000
-        if quick and it["d"] >= 100000 and (it["cls"], it["desc"].get("v")) not in QUICK_DEEPEST:
+        cv = (it["cls"], it["desc"].get("v"))
+        if quick and it["d"] >= 100000 and cv not in QUICK_DEEPEST:
             continue
+        if not quick and it["d"] >= 100000 and it["cls"] in ("deepDocument", "deepTemplateBody"):
+            if cv not in THOROUGH_DEEPEST_DOCS:
+                continue
+            scen = [x for x in scen if x[1] in ("stream", "prebuilt", "capiData")]
         ck = (it["cls"], it["role"], bool(it.get("embedded")))
-        full = (not quick) or (seen_cls[ck] < 2 and not big)
+        full = (not quick) or (seen_cls[ck] < 1 and not big)
         seen_cls[ck] += 1
         if not full:
-            k = 2 if big else 3
+            k = 2
             start = rr[it["role"]]
             rr[it["role"]] += k
             scen = [scen[(start + j) % len(scen)] for j in range(min(k, len(scen)))]
         for grp, s in scen:
             cases.append({"grp": grp, "scen": s, "role": it["role"], "cls": it["cls"], "d": it["d"], "in": it["in"],
-                          "timeout": 240 if big else 30, "solo": big, "leak": False, "item": it})
+                          "timeout": 900 if big else 30, "solo": big, "leak": False, "item": it})
     # children are per group: keep the groups in long runs; the big inputs (one child each) first, they take longest
     cases.sort(key=lambda c: (not c["solo"], c["grp"]))
     for n, c in enumerate(cases):
@@ -165,9 +172,10 @@ def run_harness(exe, cases, inputs, fixed, wd, tag, flavour, batch=BATCH, timeou
     data = os.path.join(wd, "data-" + tag)
     os.makedirs(out, exist_ok=True); os.makedirs(data, exist_ok=True)
     ipath = os.path.join(wd, "inputs-%s.ndjson" % tag)
+    used = set(fixed.values()) | {c["in"] for c in cases}
     with open(ipath, "w") as f:
-        for i, b in enumerate(inputs):
-            f.write('{"i":%d,"hex":"%s"}\n' % (i, b.hex()))
+        for i in sorted(used):
+            f.write('{"i":%d,"hex":"%s"}\n' % (i, inputs[i].hex()))
     cpath = os.path.join(wd, "cases-%s.ndjson" % tag)
     cfgline = dict(fixed, config=True, seedExpr=c03gen.SEED_EXPR, timeout=30, batch=batch, leak=False)
     vlib.write_ndjson(cpath, [cfgline] + [{k: v for k, v in c.items() if k != "item"} for c in cases])
@@ -445,6 +453,7 @@ def run(res, tier, seed):
                 candidates.append((key, rj, c, ex, flavour))
     # ---- an unlisted rejection is reported if it repeats when the execution is run again on its own
     res.notes["rejected_not_known"] = len(candidates)
+    vlib.log("c03: %d executions, %d rejected and not listed, %.0f s" % (tot_exec, len(candidates), time.time() - t0))
     seen_keys = collections.Counter()
     confirm = []
     for cand in candidates:
@@ -452,18 +461,23 @@ def run(res, tier, seed):
         if seen_keys[cand[0]] <= 3:
             confirm.append(cand)
     res.notes["unlisted_classes"] = {k: n for k, n in sorted(seen_keys.items())}
-    for n, (key, rj, c, ex, flavour) in enumerate(confirm[:40]):
-        it = c["item"]
-        c1 = dict(c, id=0)
-        ex2 = run_harness(exe if flavour == "asan" else exe_plain, [c1], inputs, fixed, wd, "confirm-%d" % n, flavour, batch=1, timeout=600)
-        rej2, _ = validate(ex2, wd, "c03tv-confirm-%d" % n)
-        if 0 not in rej2:
-            res.notes.setdefault("unrepeatable", []).append(key)
+    confirm = confirm[:40]
+    for flavour, exe_ in (("asan", exe), ("hooks", exe_plain)):
+        group = [x for x in confirm if x[4] == flavour]
+        if not group:
             continue
-        key2 = finding_key(ex2[0], rej2[0]["k"], it)
-        cut = [dict(ev) for ev in ex2[0][:rej2[0]["k"] + 1]]
-        cut[0]["replay"] = {"case": {k: v for k, v in c1.items() if k != "item"}, "input_hex": inputs[it["in"]].hex(), "descriptor": it["desc"], "key": key2}
-        res.violation("%s | key %s" % (rej2[0]["msg"][:300], key2), cut)
+        cs1 = [dict(x[2], id=j, solo=True, leak=True) for j, x in enumerate(group)]
+        ex2 = run_harness(exe_, cs1, inputs, fixed, wd, "confirm-" + flavour, flavour, batch=1, timeout=3000)
+        rej2, _ = validate(ex2, wd, "c03tv-confirm-" + flavour)
+        for j, (key, rj, c, ex, fl) in enumerate(group):
+            it = c["item"]
+            if j not in rej2:
+                res.notes.setdefault("unrepeatable", []).append(key)
+                continue
+            key2 = finding_key(ex2[j], rej2[j]["k"], it)
+            cut = [dict(ev) for ev in ex2[j][:rej2[j]["k"] + 1]]
+            cut[0]["replay"] = {"case": {k: v for k, v in cs1[j].items() if k != "item"}, "input_hex": inputs[it["in"]].hex(), "descriptor": it["desc"], "key": key2}
+            res.violation("%s | key %s" % (rej2[j]["msg"][:300], key2), cut)
     res.cov["evaluations"] = tot_exec
     res.cov["traces_validated_against_impl"] = accepted
     res.cov["distinct_nontrivial"] = len(nt)
@@ -475,7 +489,7 @@ def run(res, tier, seed):
         "fuzz inputs (VERIF_SEED=%d). Scenarios: %s. non-trivial = the input is not an unmodified seed and the call under test returned; distinct = by "
         "(scenario, build flavour, input bytes)" % (len(ds), tier, len(sel), sum(1 for i in items if i["cls"] == "fuzz"), seed,
                                                      "every scenario of the input's role" if not quick else
-                                                     "every scenario for the first two inputs of each class, three round-robin scenarios for the others"))
+                                                     "every scenario for the first input of each class, two round-robin scenarios for the others"))
     res.notes["inputs"] = len(inputs)
     res.notes["per_class"] = {k: dict(v) for k, v in sorted(per_class.items())}
     res.notes["per_entry_point_calls"] = dict(sorted(per_op.items()))
